@@ -2,6 +2,7 @@ import SelfiesVerif.Model.Decoder
 import SelfiesVerif.Model.Encoder
 import SelfiesVerif.Model.Encoding
 import SelfiesVerif.Model.Config
+import SelfiesVerif.Spec.Derivation
 
 namespace SV.Driver
 open SV
@@ -168,6 +169,12 @@ def handle (st : St) (fields : List String) : St × String :=
     let r := decoderFull st.table (decStr s) compat attrib
     (st, encPy (fun (p : Str × List AttributionMap) =>
       if attrib then encStr p.1 ++ "\t" ++ encMaps p.2 else encStr p.1) r)
+  | ["specdec", flags, s] =>
+    -- the INDEPENDENT rendering of derivation.rst (Spec/Derivation.lean), written out with the model's writer
+    (st, encPy encStr (do
+      let g ← Spec.decodeGraph st.table (decStr s) (flags.contains 'c')
+      let r ← molToSmiles g.toMol
+      pure r.1))
   | ["decg", flags, s] =>
     (st, encPy encMol (decodeGraph st.table (decStr s) (flags.contains 'c') false))
   | ["enc", flags, tape, s] =>
